@@ -34,6 +34,7 @@ var Prop = &engine.Prop{
 		{Name: "wide", Quick: 2000, Thorough: 100000, Fn: wideCase},
 		{Name: "lin", Quick: 2000, Thorough: 100000, Fn: linCase},
 		{Name: "gated-size", Quick: 1200, Thorough: 60000, Fn: gatedSizeCase},
+		{Name: "size-poll", Quick: 16, Thorough: 320, Fn: sizePollCase},
 		{Name: "stress", Quick: 160, Thorough: 4000, Repeat: 20, Fn: stressCase},
 	},
 	Floors: map[string]int64{
